@@ -184,6 +184,50 @@ func runC20FieldPathsOnInstantiatedType(c *Ctx) {
 					}
 					return
 				}
+				// handed in by the callers, or handed up by a helper (refactoring B25_r1:
+				// targetMessageDescriptors / makeTargetVars)
+				if prm, isPrm := v.(*ssa.Parameter); isPrm {
+					idx := -1
+					for i, q := range prm.Parent().Params {
+						if q == prm {
+							idx = i
+						}
+					}
+					edges := p.Callers(prm.Parent())
+					if idx < 0 || len(edges) == 0 {
+						bad = append(bad, "parameter without call sites")
+						return
+					}
+					for _, e := range edges {
+						if e.Kind != "static" || e.Site == nil || idx >= len(e.Site.Common().Args) {
+							bad = append(bad, "parameter with a dynamic call site")
+							return
+						}
+						walk(e.Site.Common().Args[idx], FactsAt(e.Site.Block()), depth+1)
+					}
+					return
+				}
+				if ex, isEx := v.(*ssa.Extract); isEx {
+					if hc, isCall := ex.Tuple.(*ssa.Call); isCall {
+						if g := hc.Call.StaticCallee(); g != nil && p.inScope(g) && len(g.Blocks) > 0 {
+							nRet := 0
+							ForEachInstr(g, func(in ssa.Instruction) {
+								ret, isRet := in.(*ssa.Return)
+								if !isRet {
+									return
+								}
+								rv := ReturnValues(ret)
+								if ex.Index < len(rv) {
+									nRet++
+									walk(rv[ex.Index], FactsAt(ret.Block()), depth+1)
+								}
+							})
+							if nRet > 0 {
+								return
+							}
+						}
+					}
+				}
 				cv, ok := v.(*ssa.Call)
 				if !ok || !cv.Call.IsInvoke() {
 					bad = append(bad, "not a descriptor accessor: "+v.String())
